@@ -8,6 +8,9 @@ Init == l = 1 /\ cnt = [events |-> 0, nontrivial |-> 0]
 Next == /\ l <= Len(Trace)
         /\ LET e == Trace[l] IN
            /\ (e.rconc # <<e.rseq>> => PrintT(<<"VIOL", l, "C20.ConcurrentSameAsSequential">>))
+           \* the read-only battery (accessors, hash, range, conversion, encoders, walk, type operations) run by every goroutine
+           \* on the shared operands reported what the sequential run reported
+           /\ (Has(e, "bseq") /\ e.bconc # <<e.bseq>> => PrintT(<<"VIOL", l, "C20.ConcurrentSameAsSequential">>))
            /\ cnt' = [cnt EXCEPT !.events = @ + 1, !.nontrivial = @ + (IF e.rseq.ok THEN 1 ELSE 0)]
         /\ l' = l + 1
         /\ (l = Len(Trace) => PrintT(<<"DONE", l, cnt'>>))
